@@ -142,6 +142,50 @@ def lvalue_program(outer_fields, inner_fields, outer_has_super, shape, compound)
     return [inner, holder, base, outer, ["expr", inv(call("Outer"), "run", arg)]]
 
 
+def cat(*xs):
+    return xs[0] if len(xs) == 1 else ["bin", "+", xs[0], cat(*xs[1:])]
+
+
+def factory_program(seq, leaf, order, base_init):
+    """classes declared inside functions and evaluated several times: `seq` is the sequence of factories (F or G) stacked on the
+    base class, every layer overrides m(), m1(x), viaval() and who() through super (zero-argument call, call with an argument,
+    super method taken as a value, initialiser chaining); the receivers call them in the order `order`, twice"""
+    base_methods = [("method", "m", [], [["return", S("plain")]]), ("method", "m1", ["x"], [["return", cat(S("A1:"), V("x"))]]),
+                    ("method", "who", [], [["return", S("A")]])]
+    if base_init:
+        base_methods.insert(0, ("method", "init", [], [["expr", sset("depth", N(0))], ["expr", sset("tags", S(""))]]))
+    prog = [["class", "A", None, base_methods]]
+
+    def factory(fname, mark):
+        ms = [("method", "m", [], [["return", cat(V("tag"), S(mark + "("), ["super", "m", []], S(")"))]]),
+              ("method", "m1", ["x"], [["return", cat(V("tag"), S("["), ["super", "m1", [V("x")]], S("]"))]]),
+              ("method", "viaval", [], [["let", "f", ["super", "m", None]], ["return", cat(V("tag"), S("<"), call(V("f")), S(">"))]]),
+              ("method", "who", [], [["return", cat(V("tag"), S("/"), ["super", "who", []])]])]
+        if base_init:
+            ms.insert(0, ("method", "init", [], [["expr", ["super", "init", []]], ["expr", sset("depth", ["bin", "+", sget("depth"), N(1)])], ["expr", sset("tags", cat(sget("tags"), V("tag")))]]))
+        return ["fn", fname, ["P", "tag"], [["class", "W", "P", ms], ["return", V("W")]]]
+    prog += [factory("F", "f"), factory("G", "g")]
+    names = ["A"]
+    for k, fk in enumerate(seq):
+        nm = "K%d" % k
+        prog.append(["let", nm, call(fk, V(names[-1]), S("t%d" % k))])
+        names.append(nm)
+    if leaf:
+        lm = [("method", "m", [], [["return", cat(S("leaf+"), ["super", "m", []])]]), ("method", "who", [], [["return", cat(S("L/"), ["super", "who", []])]])]
+        prog.append(["class", "Leaf", names[-1], lm])
+        names.append("Leaf")
+    recv = names[1:]
+    for rnd in (0, 1):
+        for k in order:
+            r = recv[k % len(recv)]
+            o = call(r)
+            items = [S(r), inv(o, "m"), inv(call(r), "m1", S("q")), inv(call(r), "viaval"), inv(call(r), "who")]
+            if base_init:
+                items += [["get", call(r), "depth"], ["get", call(r), "tags"]]
+            prog.append(["print", items])
+    return prog
+
+
 class C03(Check):
     id = "C03"
     level = "exploration"
@@ -161,15 +205,27 @@ class C03(Check):
                     for shape in LV_SHAPES:
                         for compound in (False, True):
                             yield ("lvalue", tuple(of), tuple(inner_fields), sup, shape, compound)
+        # class factories: the same class declaration evaluated several times and stacked
+        for d in (1, 2, 3):
+            for seq in itertools.product("FG", repeat=d):
+                for leaf in (False, True):
+                    n = d + (1 if leaf else 0)
+                    for order in itertools.permutations(range(n)):
+                        for base_init in (False, True):
+                            yield ("factory", seq, leaf, order, base_init)
 
     def ast(self, spec):
         if spec[0] == "lvalue":
             return lvalue_program(list(spec[1]), list(spec[2]), spec[3], spec[4], spec[5])
+        if spec[0] == "factory":
+            return factory_program(spec[1], spec[2], spec[3], spec[4])
         return program(A_INIT[spec[0]], spec[1], B_FIELDS[spec[2]], *spec[3:])
 
     def describe(self, spec):
         if spec[0] == "lvalue":
             return "lvalue shape=%s compound=%s outer fields=%s (super=%s) inner fields=%s" % (spec[4], spec[5], list(spec[1]), spec[3], list(spec[2]))
+        if spec[0] == "factory":
+            return "class factories stacked=%s leaf_subclass=%s call order=%s base_init=%s" % ("".join(spec[1]), spec[2], list(spec[3]), spec[4])
         return "A.init=%s B.super=%s B.fields=%s C.init=%s B.m=%s B.n=%s C.m=%s @syntax=%s" % (A_INIT[spec[0]], spec[1], B_FIELDS[spec[2]], *spec[3:])
 
     def build(self, spec):
